@@ -956,3 +956,71 @@ def rule_apifwd(ctx, prop: str) -> RuleResult:
         raise AnalysisError("APIFWD: no Procedure method using a cursor parameter's _impl found")
     res.floor = 1
     return res
+
+
+def rule_wrapdepth(ctx, prop: str) -> RuleResult:
+    """`Block._wrap(ctor, attr)` puts the block below ONE new node and its forwarder moves
+    every cursor into the block down by exactly that one level.  A wrapper function handed
+    to `_wrap` must therefore build exactly one new statement around its parameter: it may
+    not re-wrap the parameter first (`body = [LoopIR.If(cond, body, ...)]`) or return a
+    constructor whose block argument is another freshly built statement."""
+    ix = ctx.ix
+    res = RuleResult("WRAPDEPTH")
+    S_ = "src/exo/rewrite/LoopIR_scheduling.py"
+    m = ix.module(S_)
+    STMT_CTORS = {"For", "If"}
+    n_wr = 0
+    for f in m.funcs.values():
+        if not isinstance(f.node, ast.FunctionDef):
+            continue
+        for call in f.body_nodes():
+            if not (isinstance(call, ast.Call) and isinstance(call.func, ast.Attribute) and call.func.attr == "_wrap" and call.args):
+                continue
+            w = call.args[0]
+            wf = None
+            if isinstance(w, ast.Name):
+                scope = f
+                while scope is not None and wf is None:
+                    wf = m.funcs.get(f"{scope.qualname}.{w.id}")
+                    scope = scope.outer
+                if wf is None:
+                    # a lambda bound to a name:  wrapper = lambda body: g(body, ...)
+                    continue
+                wnode, params = wf.node, [a.arg for a in wf.node.args.args]
+            elif isinstance(w, ast.Lambda):
+                wnode, params = w, [a.arg for a in w.args.args]
+            else:
+                continue
+            if not params:
+                continue
+            b = params[0]
+            n_wr += 1
+            res.instances += 1
+            res.nontrivial += 1
+            res.analysed.append(f"{S_}:{f.qualname}")
+            bad = None
+            for k in ast.walk(wnode):
+                # the parameter re-bound to something that contains a new statement built around it
+                if isinstance(k, ast.Assign) and len(k.targets) == 1 and isinstance(k.targets[0], ast.Name) and k.targets[0].id == b:
+                    for c_ in ast.walk(k.value):
+                        if isinstance(c_, ast.Call) and (dotted(c_.func) or "").split(".")[-1] in STMT_CTORS and any(isinstance(x, ast.Name) and x.id == b for x in ast.walk(c_)):
+                            bad = k
+                # a constructor whose block argument is itself a freshly built statement around the parameter
+                if isinstance(k, ast.Call) and (dotted(k.func) or "").split(".")[-1] in STMT_CTORS:
+                    for a in list(k.args) + [kw.value for kw in k.keywords]:
+                        for c_ in ast.walk(a):
+                            if c_ is not k and isinstance(c_, ast.Call) and (dotted(c_.func) or "").split(".")[-1] in STMT_CTORS and any(isinstance(x, ast.Name) and x.id == b for x in ast.walk(c_)):
+                                bad = k
+            ok = bad is None
+            res.ob(ok)
+            res.sample(f"{f.qualname}: wrapper `{ast.unparse(w)[:30]}` adds exactly one level around `{b}`: {ok}")
+            if not ok:
+                res.add(
+                    Finding("WRAPDEPTH", S_, bad.lineno, f.qualname, ast.unparse(w)[:30],
+                            f"the wrapper passed to _wrap builds two nested statements around `{b}` (`{ast.unparse(bad)[:60]}`) while the forwarder of _wrap moves cursors down one level: "
+                            f"after add_loop(p, s, 'k', 4, guard=True), p.forward(s) designates the new `if k == 0:` instead of the statement")
+                )
+    if n_wr < 6:
+        raise AnalysisError(f"WRAPDEPTH: expected >= 6 wrapper functions handed to _wrap, found {n_wr}")
+    res.floor = 6
+    return res
